@@ -18,6 +18,10 @@ def write(pid, *, tier, seed, level, coverage, wall_s, violations=0, assumptions
         "violations": int(violations),
     }
     path = os.path.join(ROOT, "evidence", f"{pid}.json")
+    if pid.upper().startswith("X"):
+        # specification growth beyond the listed properties: kept apart from the per-property evidence
+        os.makedirs(os.path.join(ROOT, "evidence_extras"), exist_ok=True)
+        path = os.path.join(ROOT, "evidence_extras", f"{pid}.json")
     if os.environ.get("VERIF_REPO_ROOT", "/repo") != "/repo":
         # development runs against a scratch copy of the repository (mutation experiments) must not overwrite the evidence
         os.makedirs(os.path.join(ROOT, "out", "scratch-evidence"), exist_ok=True)
